@@ -170,7 +170,13 @@ def convert_to_lut(op, lut_values, lut_name):
     assert ifm.dtype == ofm.dtype
     lut_tensor = create_lut_tensor(op.name + "_values", lut_values, ofm.dtype)
     op.set_activation_lut(lut_tensor)
+    # Keep the operator's own IFM/OFM shapes: the tensors may carry the shape of a bypassed reshape
+    ifm_shape = op.ifm_shapes[0] if op.ifm_shapes else None
+    ofm_shape = op.ofm_shapes[0] if op.ofm_shapes else None
     op.set_ifm_ofm_shapes()
+    if ifm_shape is not None and ofm_shape is not None:
+        op.ifm_shapes[0] = ifm_shape
+        op.ofm_shapes[0] = ofm_shape
     DebugDatabase.add_optimised(op, op)
     return op
 
